@@ -70,7 +70,12 @@ def ndarray2utpm(A):
     from .globalfuncs import zeros
     shp = numpy.shape(A)
     A = numpy.ravel(A)
-    retval = zeros(shp,dtype=A[0])
+    proto = A[0]
+    dtype = numpy.result_type(*[a.data.dtype for a in A if isinstance(a, algopy.UTPM)] + [float])
+    if isinstance(proto, algopy.UTPM) and proto.data.dtype != dtype and dtype.kind in 'fc':
+        # the elements have different dtypes (real and complex): the common one
+        proto = proto.__class__(proto.data.astype(dtype))
+    retval = zeros(shp,dtype=proto)
 
     for na, a in enumerate(A):
         retval[na] = a
@@ -114,6 +119,8 @@ def symvec(A, UPLO='F'):
 
     assert N == M
 
+    if UPLO == 'F' and isinstance(A, numpy.ndarray) and A.dtype.kind in 'biu':
+        A = A.astype(float)    # the symmetrized entries (a + b)/2 of an integer matrix are not integers
     v = zeros( ((N+1)*N)//2, dtype=A)
 
     if UPLO=='F':
@@ -170,6 +177,7 @@ def piv2mat(piv):
     a permutation matrix
     """
     N = len(piv)
+    piv = numpy.asarray(piv).astype(int)    # UTPM.lu_factor returns the pivots as floats
     swap = numpy.arange(N)
     for i in range(N):
         tmp = swap[i]
